@@ -194,12 +194,21 @@ Definition mark_conn (ch : cache) (dst proto port st : N) : cache :=
   map (fun e => let '((loc, rem, pr, lport, rport), (inb, s)) := e in
                 if (rem =? dst) && (pr =? proto) && (rport =? port) then ((loc, rem, pr, lport, rport), (inb, st)) else e) ch.
 
+(* Time passes without traffic on any cached connection and the periodic cleaner runs
+   (cleanConnStates): a short pause (more than 10 s, less than 10 min) forgets only the
+   short-lived ICMP/ICMPv6 entries, a long one (more than 10 min) forgets everything.  Nothing
+   else changes: in particular no status is ever re-opened by the passage of time. *)
+Definition short_lived (k : ckey) : bool := let '(_, _, proto, _, _) := k in (proto =? 1) || (proto =? 58).
+Definition age_cache (ch : cache) (long : bool) : cache :=
+  if long then [] else filter (fun e => negb (short_lived (fst e))) ch.
+
 (* a history on one router: inbound frames, outbound packets, and re-markings by error pings *)
 Inductive hstep :=
 | HIn (unsealed : bool) (fsrc fdst : N) (k : pkt)
 | HOut (k : pkt)
 | HMarkRouter (remote st : N)
-| HMarkConn (dst proto port st : N).
+| HMarkConn (dst proto port st : N)
+| HAge (long : bool).
 
 Definition hstep_run (c : cfg) (pol : policy) (handle : bool) (api : N) (ch : cache) (s : hstep) : option verdict * cache :=
   match s with
@@ -207,4 +216,5 @@ Definition hstep_run (c : cfg) (pol : policy) (handle : bool) (api : N) (ch : ca
   | HOut k => let '(v, ch') := outbound c pol ch handle api k in (Some v, ch')
   | HMarkRouter r st => (None, mark_router ch r st)
   | HMarkConn d p o st => (None, mark_conn ch d p o st)
+  | HAge long => (None, age_cache ch long)
   end.
